@@ -6,9 +6,43 @@ sys.path.insert(0, os.path.join(ROOT, "lib"))
 from registry import REGISTRY
 from claims import CLAIMS, NOT_APPLICABLE, HOOK_COMMITS
 
+ENGINE_DOC = {
+    "chan_stress": "threaded chaos workloads over the point-to-point flavours (incl. mpmc_exp) + client-boundary history checkers + stuck oracle + drop ledger",
+    "chan_stepper": "deterministic single-threaded poll / re-poll / drop explorer with spontaneous re-poll (lost-wake) oracle; broadcast oracle for spmc",
+    "chan_seq": "sequential differential of the queue flavours against a VecDeque model",
+    "spmc_stress": "threaded broadcast spmc workloads + per-receiver sequence / backpressure checker + stuck oracle",
+    "topic_check": "topic pub/sub: sequential differential incl. kept pending recv futures, concurrent interval rules, late-clone checks",
+    "lock_stress": "HybridMutex / HybridRwLock: threaded occupancy monitors + stuck oracle, and a stepper over the lock futures",
+    "cache_hist": "concurrent cache histories: per-key register rules, quiescent accounting audit, listener rules (virtual clock)",
+    "cache_seq": "sequential cache programs against a virtual-time model (expiry, iteration, snapshot/restore)",
+    "policy_seq": "eviction policies driven directly against a tracked-set model",
+    "loader": "loader single-flight / progress scenarios with gated loaders and the stuck oracle",
+    "ioc_check": "IoC container: map-model differential, singleton races, cycle probes in child processes",
+    "log_check": "logging: generated logger trees and event scripts in child processes, routing rule of the statement, shutdown races, slow sink",
+    "enc_roller": "JSON / pattern encoders with an independent parser, rolling file appender directory audit under a scripted clock",
+}
+KIND_DOC = {"miri": "Miri (tree borrows) interpretation of the same engine", "asan": "AddressSanitizer+LeakSanitizer build of the same engine",
+            "tsan": "ThreadSanitizer (-Zbuild-std) build of the same engine"}
+
+
+def engines_of(pid, tier):
+    out = []
+    for e in REGISTRY[pid]["engines"]:
+        if tier in e.get("tiers", ["quick", "thorough"]):
+            k = e.get("kind", "native")
+            out.append(e["bin"] if k == "native" else f"{e['bin']}@{k}")
+    return out
+
+
 checks = []
 for pid in sorted(CLAIMS):
     c = CLAIMS[pid]
+    kinds = sorted({e.get("kind", "native") for e in REGISTRY[pid]["engines"]} - {"native"})
+    c = dict(c)
+    c["engine"] = "quick: " + "+".join(engines_of(pid, "quick")) + " | thorough: " + "+".join(engines_of(pid, "thorough"))
+    if kinds:
+        c["technique"] = c["technique"] + "; thorough tier re-runs the engines under " + ", ".join(
+            {"miri": "Miri", "asan": "ASan/LSan", "tsan": "ThreadSanitizer"}[k] for k in kinds) + " (sanitizer reports become violations)"
     checks.append({
         "property_id": pid,
         "quick_cmd": f"./check {pid} quick",
@@ -31,9 +65,11 @@ m = {
         "add_only": True,
     },
     "engines": [
-        {"name": "chan_stress", "path": "harness/vh_channels/src/bin/chan_stress.rs",
-         "serves_properties": [p for p in CLAIMS if any(e.get("bin") == "chan_stress" for e in REGISTRY[p]["engines"])],
-         "kind_free_text": "threaded chaos workloads + client-boundary history checkers + stuck oracle + drop ledger"},
+        {"name": b, "path": ("harness/%s/src/bin/%s.rs" % (next(e["pkg"] for p in REGISTRY for e in REGISTRY[p]["engines"] if e["bin"] == b), b)),
+         "serves_properties": sorted(p for p in CLAIMS if any(e.get("bin") == b for e in REGISTRY[p]["engines"])),
+         "kind_free_text": ENGINE_DOC.get(b, "") + "; sanitizer variants in the thorough tier: " + (", ".join(sorted({
+             KIND_DOC[e.get("kind")] for p in REGISTRY for e in REGISTRY[p]["engines"] if e["bin"] == b and e.get("kind", "native") != "native"})) or "none")}
+        for b in sorted({e["bin"] for p in REGISTRY for e in REGISTRY[p]["engines"]})
     ],
     "checks": checks,
     "notes": "All checks are runtime monitors over executions of the real code (level: exploration). See DESIGN.md.",
